@@ -184,6 +184,12 @@ def run_set(ctx, item, nvals, ninputs):
         for i, (ti, kind, v) in enumerate(values):
             t = msgs[ti]
             r1 = ser1[i]
+            if r1 is not None and r1["st"] == "crash":
+                # a code base that aborts (armed assertion, sanitizer) where the others produce bytes disagrees with them
+                ctx.count("evaluations")
+                ctx.refute(None, "%s: serialization of a value of %s crashed: %s %s" % (b.name, t, r1.get("kind"), r1.get("frames", [])[:2]),
+                           dict(witness, base=b.name, type=str(t), value=str(v)[:400], report=str(r1.get("text"))[-800:]))
+                continue
             if r1 is None or r1["st"] != "ok" or i not in desser:
                 continue
             r2 = desser[i]
@@ -207,6 +213,13 @@ def run_set(ctx, item, nvals, ninputs):
             ctx.distinct((b.name, W.features(t), kind))
         for j, (ti, label, data) in enumerate(inputs):
             t = msgs[ti]
+            if des1[j]["st"] == "crash" or (j in serdes and serdes[j]["st"] == "crash"):
+                ctx.count("evaluations")
+                cr = des1[j] if des1[j]["st"] == "crash" else serdes[j]
+                ctx.refute(None, "%s: %s of %s crashed: %s %s" % (b.name, "deserialization" if des1[j]["st"] == "crash" else "re-serialization of a decoded value", t,
+                                                                   cr.get("kind"), cr.get("frames", [])[:2]),
+                           dict(witness, base=b.name, type=str(t), data=bytes(data).hex()[:300], report=str(cr.get("text"))[-800:]))
+                continue
             if des1[j]["st"] != "ok" or j not in serdes or serdes[j]["st"] != "ok" or j not in d3:
                 continue
             ctx.count("evaluations")
